@@ -289,3 +289,78 @@ M.contract(P + ':ok_build_argv', params=dict(interpreter_args=ListOf(Str), sourc
                     'inputs-unchanged': lambda interpreter_args, args, old: (len(interpreter_args), len(args)) == old},
            old=lambda interpreter_args, args: (len(interpreter_args), len(args)),
            raises_only=())
+
+
+# ---- mutable lists of records with optional fields (MListOf(Inst(...))) and of elements of a sequence of
+# interface objects (MListOf(RefTo(...)))
+
+class _Rec:
+    def __init__(self, a, b):
+        self.a = a
+        self.b = b
+
+
+def ok_collect_records(xs):
+    out = []
+    for x in xs:
+        out.append(_Rec(x, None if x < 0 else x + 1))
+    return out
+
+
+from pyvc.api import Inst, Opt, RefTo, Interface, Iface  # noqa: E402
+
+_REC = Inst(_Rec, a=Int, b=Opt(Int))
+
+
+def _rec_ok(r, x):
+    return r.a == x and (r.b is None) == (x < 0)
+
+
+M.contract(P + ':ok_collect_records', params=dict(xs=ListOf(Int)), returns=MListOf(_REC),
+           ensures={'one-record-per-item': lambda xs, result: len(result) == len(xs) and forall_range(
+               0, len(xs), lambda k: _rec_ok(result[k], xs[k]))},
+           raises_only=())
+M.loop(P + ':ok_collect_records', 0,
+       invariant=lambda _i, xs, out: len(out) == _i and forall_range(0, _i, lambda k: _rec_ok(out[k], xs[k])),
+       modifies=dict(out=MListOf(_REC), x='local'))
+
+
+def bad_collect_records(xs):
+    out = []
+    for x in xs:
+        out.append(_Rec(x, None if x <= 0 else x + 1))
+    return out
+
+
+M.contract(P + ':bad_collect_records', params=dict(xs=ListOf(Int)), returns=MListOf(_REC),
+           ensures={'one-record-per-item': lambda xs, result: len(result) == len(xs) and forall_range(
+               0, len(xs), lambda k: _rec_ok(result[k], xs[k]))},
+           raises_only=())
+M.loop(P + ':bad_collect_records', 0,
+       invariant=lambda _i, xs, out: len(out) == _i and forall_range(0, _i, lambda k: _rec_ok(out[k], xs[k])),
+       modifies=dict(out=MListOf(_REC), x='local'))
+
+EXPECTED_REFUTED.add(P + ':bad_collect_records : loop#0 invariant[preserved]')
+
+
+class _ItemI(Interface):
+    attrs = {'weight': Int}
+
+
+def ok_heavy_items(items):
+    out = []
+    for it in items:
+        if it.weight > 10:
+            out.append(it)
+    return out
+
+
+_ITEM_REF = RefTo(_ItemI, 'items[]')
+
+M.contract(P + ':ok_heavy_items', params=dict(items=ListOf(Iface(_ItemI))), returns=MListOf(_ITEM_REF),
+           ensures={'only-heavy': lambda result: forall_range(0, len(result), lambda k: result[k].weight > 10),
+                    'not-longer': lambda items, result: len(result) <= len(items)},
+           raises_only=())
+M.loop(P + ':ok_heavy_items', 0,
+       invariant=lambda _i, out: len(out) <= _i and forall_range(0, len(out), lambda k: out[k].weight > 10),
+       modifies=dict(out=MListOf(_ITEM_REF), it='local'))
